@@ -36,6 +36,9 @@ pub enum Op {
     Err,
     Panic,
     Conc(Vec<Vec<Op>>),
+    /// make the formatter available (a marking stub on the PATH) or unavailable (empty PATH
+    /// directory) for the following calls of this process; top level only
+    Fmt(bool),
 }
 
 fn op_json(o: &Op) -> Value {
@@ -43,6 +46,7 @@ fn op_json(o: &Op) -> Value {
         Op::Gen(k) => json!({"op": "gen", "key": k}),
         Op::Err => json!({"op": "err"}),
         Op::Panic => json!({"op": "panic"}),
+        Op::Fmt(on) => json!({"op": "fmt", "on": on}),
         Op::Conc(ts) => json!({"op": "conc", "threads": ts.iter().map(|t| t.iter().map(op_json).collect::<Vec<_>>()).collect::<Vec<_>>()}),
     }
 }
@@ -52,7 +56,17 @@ fn op_from_json(v: &Value) -> Op {
         Some("gen") => Op::Gen(v["key"].as_u64().unwrap_or(0) as usize),
         Some("err") => Op::Err,
         Some("panic") => Op::Panic,
+        Some("fmt") => Op::Fmt(v["on"].as_bool().unwrap_or(false)),
         _ => Op::Conc(v["threads"].as_array().map(|a| a.iter().map(|t| t.as_array().map(|x| x.iter().map(op_from_json).collect()).unwrap_or_default()).collect()).unwrap_or_default()),
+    }
+}
+
+/// PATH and stub mode for the two formatter states
+fn fmt_env(on: bool) -> (String, &'static str) {
+    if on {
+        (format!("{VERIF_DIR}/stubs/fmt"), "mark")
+    } else {
+        (format!("{VERIF_DIR}/stubs/empty"), "absent")
     }
 }
 
@@ -76,6 +90,15 @@ fn exec_ops(sut: &dyn Sut, keys: &[Key], ops: &[Op]) -> Vec<Value> {
                 // documented panic: runtime-sized array without encase
                 let r = sut.generate(PANIC_SHADER, None, &Opts::default());
                 out.push(json!({"op": "panic", "outcome": outcome_to_json(&r)}));
+            }
+            Op::Fmt(on) => {
+                // no other thread of this process is running here (concurrent blocks are joined)
+                let (path, mode) = fmt_env(*on);
+                unsafe {
+                    std::env::set_var("PATH", path);
+                    std::env::set_var("VERIF_FMT_MODE", mode);
+                }
+                out.push(json!({"op": "fmt", "on": on}));
             }
             Op::Conc(threads) => {
                 let results: Vec<Vec<Value>> = std::thread::scope(|s| {
@@ -125,6 +148,9 @@ fn gen_opts(ch: &mut Ch) -> Opts {
         3 => Validate::Bits(naga::valid::Capabilities::all().bits() & !(1 << ch.below(24))),
         _ => Validate::Bits(ch.raw()),
     };
+    // with the formatter option on, the text depends on whether a formatter can be spawned at the
+    // time of the call -- and on nothing else (no memory of earlier spawn attempts)
+    o.rustfmt = ch.chance(3, 8);
     o
 }
 
@@ -134,6 +160,7 @@ fn gen_ops(ch: &mut Ch, nkeys: usize, depth: usize, max: usize) -> Vec<Op> {
         .map(|_| match ch.below(10) {
             0 => Op::Err,
             1 => Op::Panic,
+            4 if depth == 0 => Op::Fmt(ch.flip()),
             2 | 3 if depth == 0 => {
                 let nt = ch.usize_range(2, 5);
                 Op::Conc((0..nt).map(|_| gen_ops(ch, nkeys, 1, 3)).collect())
@@ -198,8 +225,14 @@ struct RefCache {
     map: Mutex<HashMap<u64, WOutcome>>,
 }
 
-fn child_gen(key: &Key, seed: u32, slot: u32) -> Result<WOutcome, String> {
-    let (env, cwd) = random_env(seed, slot);
+fn child_gen(key: &Key, seed: u32, slot: u32, fmt_on: bool) -> Result<WOutcome, String> {
+    let (mut env, cwd) = random_env(seed, slot);
+    if key.opts.rustfmt {
+        let (path, mode) = fmt_env(fmt_on);
+        env.retain(|(k, _)| k != "PATH");
+        env.push(("PATH".to_string(), path));
+        env.push(("VERIF_FMT_MODE".to_string(), mode.to_string()));
+    }
     let req = key.json();
     let r = run_child(&ChildSpec { cmd: "gen", request: &req, env_clear: true, env, cwd: Some(&cwd), cpu_limit_s: 60, wall_limit_s: 120.0 });
     match r.response.as_ref().and_then(|v| woutcome_from_json(&v["outcome"])) {
@@ -215,15 +248,24 @@ fn count_shape(text: &str) -> (usize, usize) {
 }
 
 fn judge(c: &Case, cache: &RefCache, stats: &mut Stats) -> Result<(), String> {
-    // references
+    // references: per key, for the formatter-absent and the formatter-present state (they are the
+    // same reference for keys with the formatter option off)
     let mut refs: Vec<WOutcome> = Vec::new();
+    let mut refs_on: Vec<WOutcome> = Vec::new();
+    let uses_fmt_on = c.ops.iter().any(|o| matches!(o, Op::Fmt(true)));
+    for (state, out) in [(false, &mut refs), (true, &mut refs_on)] {
     for (i, k) in c.keys.iter().enumerate() {
-        let h = k.hash();
+        if state && !(k.opts.rustfmt && uses_fmt_on) {
+            // not needed (never compared) or identical by construction
+            out.push(WOutcome::Panic("unused reference".into()));
+            continue;
+        }
+        let h = k.hash() ^ (state as u64).wrapping_mul(0x9E37_79B9_7F4A_7C15);
         let cached = cache.map.lock().unwrap().get(&h).cloned();
         let r = match cached {
             Some(r) => r,
             None => {
-                let r = match child_gen(k, c.env_seed, i as u32) {
+                let r = match child_gen(k, c.env_seed, i as u32, state) {
                     Ok(r) => r,
                     Err(e) => {
                         eprintln!("C18 infrastructure: {e}");
@@ -231,7 +273,7 @@ fn judge(c: &Case, cache: &RefCache, stats: &mut Stats) -> Result<(), String> {
                     }
                 };
                 // a second fresh process with another environment must agree (process boundary)
-                let r2 = match child_gen(k, c.env_seed ^ 0x5bd1e995, i as u32 + 100) {
+                let r2 = match child_gen(k, c.env_seed ^ 0x5bd1e995, i as u32 + 100, state) {
                     Ok(r) => r,
                     Err(e) => {
                         eprintln!("C18 infrastructure: {e}");
@@ -251,11 +293,22 @@ fn judge(c: &Case, cache: &RefCache, stats: &mut Stats) -> Result<(), String> {
                 r
             }
         };
-        refs.push(r);
+        out.push(r);
+    }
+    }
+    for (i, k) in c.keys.iter().enumerate() {
+        if !k.opts.rustfmt {
+            refs_on[i] = refs[i].clone();
+        }
     }
     // history in one process
     let req = json!({"keys": c.keys.iter().map(|k| k.json()).collect::<Vec<_>>(), "ops": c.ops.iter().map(op_json).collect::<Vec<_>>()});
-    let (env, cwd) = random_env(c.env_seed, 999);
+    let (mut env, cwd) = random_env(c.env_seed, 999);
+    // the history starts in the formatter-absent state
+    let (path, mode) = fmt_env(false);
+    env.retain(|(k, _)| k != "PATH");
+    env.push(("PATH".to_string(), path));
+    env.push(("VERIF_FMT_MODE".to_string(), mode.to_string()));
     let r = run_child(&ChildSpec { cmd: "history", request: &req, env_clear: true, env, cwd: Some(&cwd), cpu_limit_s: 120, wall_limit_s: 300.0 });
     let Some(resp) = r.response else {
         eprintln!("C18 infrastructure: history worker produced no result (exit {:?} signal {:?}) {}", r.exit_code, r.signal, r.stderr);
@@ -267,7 +320,10 @@ fn judge(c: &Case, cache: &RefCache, stats: &mut Stats) -> Result<(), String> {
     let mut nontrivial = false;
     fn walk(
         results: &[Value],
-        refs: &[WOutcome],
+        refs_off: &[WOutcome],
+        refs_on: &[WOutcome],
+        fmt_on: &mut bool,
+        toggled: &mut bool,
         conc_threads: usize,
         seen: &mut Vec<bool>,
         interv: &mut Vec<bool>,
@@ -280,6 +336,11 @@ fn judge(c: &Case, cache: &RefCache, stats: &mut Stats) -> Result<(), String> {
                     let k = r["key"].as_u64().unwrap() as usize;
                     let got = woutcome_from_json(&r["outcome"]).ok_or("bad outcome json")?;
                     stats.class("gen_compared");
+                    let refs = if *fmt_on { refs_on } else { refs_off };
+                    if *toggled && matches!(&refs_on[k], WOutcome::Ok(_)) && refs_on[k] != refs_off[k] {
+                        stats.class("formatter_key_after_toggle");
+                        *nontrivial = true;
+                    }
                     if let WOutcome::Ok(t) = &refs[k] {
                         let (s, g) = count_shape(t);
                         let rich = s >= 3 && g >= 2;
@@ -289,7 +350,8 @@ fn judge(c: &Case, cache: &RefCache, stats: &mut Stats) -> Result<(), String> {
                     }
                     if got != refs[k] {
                         return Err(format!(
-                            "key {k}: result inside a history differs from the fresh-process reference (concurrent threads: {conc_threads}, generated before: {}, other calls in between: {})\nreference: {}\nhistory: {}\n{}",
+                            "key {k}: result inside a history differs from the fresh-process reference (formatter available: {}, concurrent threads: {conc_threads}, generated before: {}, other calls in between: {})\nreference: {}\nhistory: {}\n{}",
+                            *fmt_on,
                             seen[k],
                             interv[k],
                             refs[k].brief(),
@@ -316,13 +378,19 @@ fn judge(c: &Case, cache: &RefCache, stats: &mut Stats) -> Result<(), String> {
                         *x = true;
                     }
                 }
+                Some("fmt") => {
+                    stats.class("formatter_toggle");
+                    *fmt_on = r["on"].as_bool().unwrap_or(false);
+                    *toggled = true;
+                }
                 Some("conc") => {
                     let ts = r["threads"].as_array().ok_or("bad conc")?;
                     stats.class("concurrent_block");
                     for t in ts {
                         let mut s2 = seen.clone();
                         let mut i2 = interv.clone();
-                        walk(t.as_array().ok_or("bad thread")?, refs, ts.len(), &mut s2, &mut i2, nontrivial, stats)?;
+                        let (mut f2, mut t2) = (*fmt_on, *toggled);
+                        walk(t.as_array().ok_or("bad thread")?, refs_off, refs_on, &mut f2, &mut t2, ts.len(), &mut s2, &mut i2, nontrivial, stats)?;
                     }
                     for x in interv.iter_mut() {
                         *x = true;
@@ -334,7 +402,8 @@ fn judge(c: &Case, cache: &RefCache, stats: &mut Stats) -> Result<(), String> {
         Ok(())
     }
     let res = resp["results"].as_array().cloned().unwrap_or_default();
-    walk(&res, &refs, 1, &mut seen_since, &mut intervening, &mut nontrivial, stats)?;
+    let (mut fmt_on, mut toggled) = (false, false);
+    walk(&res, &refs, &refs_on, &mut fmt_on, &mut toggled, 1, &mut seen_since, &mut intervening, &mut nontrivial, stats)?;
     if nontrivial {
         stats.nontrivial_case(hash_str(&serde_json::to_string(&req).unwrap()));
     }
@@ -383,7 +452,7 @@ pub fn run(_sut: &dyn Sut, tier: Tier) -> ! {
     run.rule = "a history is a proptest-generated list of up to 8 operations over 1-4 keys (generated shader x include path x options): Gen(key), a failing call (parse error), a panicking call (documented runtime-array panic, caught), or a concurrent block of 2-5 threads each running a sub-history; it is executed in one worker process and every Gen result is compared byte for byte with the key's reference, which is produced by two fresh child processes with different randomised environments (cwd, HOME, TMPDIR, LANG, RUST_*, env size) that must also agree. Non-trivial = a key whose output has >= 3 structs and >= 2 bind groups that is regenerated after an intervening call, or generated inside a concurrent block of >= 3 threads; distinct by request.".to_string();
     run.assumptions = vec![
         "thread interleavings are not controlled (no synchronisation points to own): concurrency is stress-level evidence".into(),
-        "rustfmt is off in this check; formatter behaviour is C19".into(),
+        "keys with the formatter option on are compared per formatter state (a marking stub formatter on the PATH / an empty PATH directory), which the history switches between calls; what a formatter failure does to the text is C19".into(),
         "std's per-process and per-HashSet random hash seeds differ between every process and every call".into(),
     ];
     run.canaries(&mut |v| eval_replay(_sut, v));
